@@ -43,6 +43,7 @@ const int NENT[] = {4, 6, 9, 4, 12};
 const char *MN[] = {"struct assignment", "memcpy to a heap block", "memmove within an array of objects"};
 
 int g_clr_calls;
+bool g_huge_alloc;
 std::vector<void *> g_cleared;
 void clr_cb(void *p, void *) { HarnessScope hs; g_clr_calls++; g_cleared.push_back(p); }
 
@@ -180,7 +181,7 @@ void call(int kind, int entry, int pos, void *x, void *y)
         case 1: (void)cstl_unique_ptr_get_const(ux); break;
         case 2: { cstl_xtor_func_t *f; void *p; (void)cstl_unique_ptr_release(ux, &f, &p); break; }
         case 3: cstl_unique_ptr_reset(ux); break;
-        case 4: cstl_unique_ptr_alloc(ux, 1150, nullptr, nullptr); break;
+        case 4: cstl_unique_ptr_alloc(ux, g_huge_alloc ? SIZE_MAX - 4096 : 1150, nullptr, nullptr); break;
         case 5: if (pos == 0) cstl_unique_ptr_swap(ux, uy); else cstl_unique_ptr_swap(uy, ux); break;
         }
         break;
@@ -191,7 +192,7 @@ void call(int kind, int entry, int pos, void *x, void *y)
         case 1: (void)cstl_shared_ptr_get_const(sx); break;
         case 2: (void)cstl_shared_ptr_unique(sx); break;
         case 3: cstl_shared_ptr_reset(sx); break;
-        case 4: cstl_shared_ptr_alloc(sx, 1250, nullptr); break;
+        case 4: cstl_shared_ptr_alloc(sx, g_huge_alloc ? SIZE_MAX - 4096 : 1250, nullptr); break;
         case 5: if (pos == 0) cstl_shared_ptr_share(sx, sy); else cstl_shared_ptr_share(sy, sx); break;
         case 6: if (pos == 0) cstl_shared_ptr_swap(sx, sy); else cstl_shared_ptr_swap(sy, sx); break;
         case 7: cstl_weak_ptr_from(&WX[3], sx); break;
@@ -214,7 +215,7 @@ void call(int kind, int entry, int pos, void *x, void *y)
         case 2: (void)cstl_array_at(ax, 0); break;
         case 3: (void)cstl_array_at_const(ax, 0); break;
         case 4: cstl_array_reset(ax); break;
-        case 5: cstl_array_alloc(ax, 3, 4); break;
+        case 5: if (g_huge_alloc) cstl_array_alloc(ax, SIZE_MAX / 8, 16); else cstl_array_alloc(ax, 3, 4); break;
         case 6: cstl_array_set(ax, g_ext, 6, 4); break;
         case 7: { void *b; cstl_array_release(ax, &b); break; }
         case 8: if (pos == 0) cstl_array_slice(ax, 0, 0, ay); else cstl_array_slice(ay, 0, 0, ax); break;
@@ -235,7 +236,12 @@ void vf_run(const uint8_t *data, size_t len)
     int state = cur.u8() % NSTATES[kind];
     int entry = cur.u8() % NENT[kind];
     int pos = cur.u8() % 2;
-    int method = cur.u8() % 3;
+    uint8_t mb = cur.u8();
+    int method = mb % 3;
+    // variants of the call itself: allocating entry points asked for something that cannot be satisfied (the guard must be
+    // consulted before the outcome of the allocation is known), two-object entry points given the SAME stray copy twice
+    g_huge_alloc = (mb / 3) & 1;
+    bool alias = ((mb / 3) & 2) != 0;
     int ostate = cur.u8();
     const Entry &en = ENT[kind][entry];
     if (en.nargs == 1) pos = 0;
@@ -356,6 +362,8 @@ void vf_run(const uint8_t *data, size_t len)
     // whatever the aborting call itself allocated is its own business (nothing is promised about an aborting call)
     g_record_events = true;
     events_clear();
+    if (alias && en.nargs == 2) { other = stray; CNT("class.alias.same_stray_twice"); }
+    if (g_huge_alloc) CNT("class.alloc.unsatisfiable_variant");
     bool aborted = may_abort([&] { call(kind, entry, pos, stray, other); });
     g_record_events = false;
     std::vector<void *> born;
@@ -424,7 +432,7 @@ bool vf_scope(const std::string &name, Scope &s)
     if (name != "table") return false;
     s.header = {};
     for (int k = 0; k < NKINDS; k++) for (int st = 0; st < NSTATES[k]; st++) for (int e = 0; e < NENT[k]; e++)
-        for (int pos = 0; pos < (ENT[k][e].nargs == 2 ? 2 : 1); pos++) for (int m = 0; m < 3; m++)
+        for (int pos = 0; pos < (ENT[k][e].nargs == 2 ? 2 : 1); pos++) for (int m = 0; m < 12; m++)
             for (int os = 0; os < (ENT[k][e].nargs == 2 ? NSTATES[k] : 1); os++)
                 s.alphabet.push_back({(uint8_t)k, (uint8_t)st, (uint8_t)e, (uint8_t)pos, (uint8_t)m, (uint8_t)os});
     s.prune = false;
